@@ -85,15 +85,21 @@ def _observe_outputs(A, built, outputs):
 ALGOS = ("thl_all", "thl_any", "exh_all", "exh_any", "lca", "genall")
 
 
-def observe_dtl(inp, algos=ALGOS):
-    """Run the plain solvers of the real code on one abstract input."""
+def observe_dtl(inp, algos=ALGOS, naming=None):
+    """Run the plain solvers of the real code on one abstract input.  Ancestral
+    nodes are unnamed for every other input (node labels are no part of the
+    problem), unless `naming` says otherwise."""
+    if naming is None:
+        import json
+        import zlib
+        naming = "unnamed" if zlib.crc32(json.dumps(proj.inp_to_json(inp), sort_keys=True).encode()) % 2 else "unique"
     A = proj.api()
     from superrec2.compute.reconciliation import reconcile_thl, reconcile_lca
     from superrec2.compute.exhaustive import reconcile_exhaustive, generate_all
     pol = A.dp.RetentionPolicy
     obs = {}
     for algo in algos:
-        built = proj.build_input(A, inp)
+        built = proj.build_input(A, inp, naming=naming)
         if algo == "thl_all":
             res, exc = _call(lambda: list(reconcile_thl(built.input, pol.ALL)))
         elif algo == "thl_any":
